@@ -5,6 +5,7 @@
 #include "seq.hpp"
 #include <thread>
 #include <system_error>
+#include <algorithm>
 
 namespace seq {
 
@@ -303,10 +304,119 @@ static void attack_forged_collect(State& S) {
   vf_err_reset();
 }
 
+// (1c) second free of an OVER-ALIGNED block (the pointer lies inside its block) whose page became completely empty in between and was kept by the allocator
+// (the only page of its class in a private heap), and holds a live block again at the time of the second free
+struct FindCtx { uintptr_t target; uintptr_t start = 0; size_t bsize = 0; uintptr_t alo = 0, ahi = 0; };
+static bool find_block_visitor(const mi_heap_t*, const mi_heap_area_t* area, void* block, size_t bsize, void* arg) {
+  FindCtx* c = (FindCtx*)arg;
+  if (block == nullptr) return true;
+  uintptr_t b = (uintptr_t)block;
+  if (c->target >= b && c->target < b + bsize) { c->start = b; c->bsize = bsize; c->alo = (uintptr_t)area->blocks; c->ahi = c->alo + area->reserved; return false; }
+  return true;
+}
+static uint64_t g_att_double_aligned = 0;
+static void attack_double_free_aligned(State& S) {
+  mi_heap_t* h = mi_heap_new(); if (h == nullptr) { g_att_skipped++; return; }
+  const size_t A = (size_t)64 << vf_rng_below(&S.rng, 4);                  // 64 .. 512
+  const size_t n = 20 + (size_t)vf_rng_below(&S.rng, 3 * A);
+  const int K = 3 + (int)vf_rng_below(&S.rng, 4);
+  std::vector<uint8_t*> as; std::vector<FindCtx> where;
+  vf_cur_what = "heap_malloc_aligned";
+  for (int i = 0; i < K; i++) { uint8_t* a = (uint8_t*)mi_heap_malloc_aligned(h, n, A); if (a) { memset(a, 0x6b, n); as.push_back(a); } }
+  bool ok = ((int)as.size() == K);
+  for (uint8_t* a : as) { FindCtx c; c.target = (uintptr_t)a; mi_heap_visit_blocks(h, true, &find_block_visitor, &c); where.push_back(c); if (c.start == 0) ok = false; }
+  size_t vi = SIZE_MAX;
+  if (ok) for (size_t i = 0; i + 1 < as.size(); i++) if (where[i].start != (uintptr_t)as[i]) { vi = i; break; }    // an interior pointer, and not the block that is handed out first afterwards
+  if (ok) for (auto& c : where) if (c.alo != where[0].alo || c.bsize != where[0].bsize) ok = false;                  // one page, one class
+  if (!ok || vi == SIZE_MAX) { for (uint8_t* a : as) mi_free(a); mi_heap_destroy(h); g_att_skipped++; return; }
+  uint8_t* victim = as[vi];
+  vf_cur_what = "free";
+  mi_free(victim);                                                      // first free (legitimate)
+  for (size_t i = 0; i < as.size(); i++) if (i != vi) mi_free(as[i]);   // the page is empty now (and kept: the only page of its class in this heap)
+  // (no collect here: a collect releases a completely empty page, and a second free after the area was released is outside the claim)
+  std::vector<uint8_t*> live;
+  const size_t cn = where[0].bsize - 16;                                // same size class
+  vf_cur_what = "heap_malloc";
+  uint8_t* c = (uint8_t*)mi_heap_malloc(h, cn);
+  if (c == nullptr || (uintptr_t)c < where[0].alo || (uintptr_t)c >= where[0].ahi || (uintptr_t)c == where[vi].start) {   // not the intended picture (page was released, or the victim's block was reused)
+    mi_heap_destroy(h); g_att_skipped++; return;
+  }
+  memset(c, 0x6c, cn); live.push_back(c);
+  vf_cur_what = "second free of an over-aligned block";
+  begin_attack(EAGAIN);
+  g_att_double++; g_att_double_aligned++; g_att_classes.insert(where[0].bsize);
+  mi_free(victim);
+  end_attack(S, "second free of an over-aligned block (interior pointer) after its page had been empty and was reused", "double-free-undetected", n, victim);
+  if (S.cfg.secure) {
+    // the heap stays usable: nothing is handed out twice
+    vf_cur_what = "heap_malloc after an ignored double free";
+    for (int i = 0; i < 2 * K + 8; i++) { uint8_t* q = (uint8_t*)mi_heap_malloc(h, cn); if (q) { memset(q, 0x6d + (i & 7), cn); live.push_back(q); } }
+    std::sort(live.begin(), live.end());
+    for (size_t i = 0; i + 1 < live.size(); i++)
+      if (live[i] + cn > live[i + 1])
+        vf_trip("overlap", "C17,C01", "after an ignored second free of the over-aligned block %p two live blocks of %zu bytes overlap: %p and %p", (void*)victim, cn, (void*)live[i], (void*)live[i + 1]);
+    for (size_t i = 0; i < live.size(); i++) { uint8_t want = (live[i] == c ? 0x6c : 0); if (want && (live[i][0] != want || live[i][cn - 1] != want)) vf_trip("contents", "C17,C01", "live block %p changed after an ignored double free", (void*)live[i]); }
+  }
+  mi_heap_destroy(h);
+  vf_err_reset();
+}
+
+// ------------------------------------------------------------------------------------------------------------------------------------------
+// Dedicated cases of recorded findings (known_findings.json K4, K5, K6): one short history each, nothing else runs in the process.
+// ------------------------------------------------------------------------------------------------------------------------------------------
+// K4/K5: the FIRST free of a block by another thread parks the block on the owning heap's delayed-free list (links encoded with the heap's keys).
+// That list is outside both the link check and the double-free check.
+static void run_delayed_list_case(State& S, bool forged) {
+  const size_t n = 32 + 16 * (size_t)vf_rng_below(&S.rng, 30);
+  mi_heap_t* h = mi_heap_new();                                        // a private heap: its pages have not seen a free by another thread yet
+  if (h == nullptr) vf_trip("harness", "", "mi_heap_new failed");
+  std::vector<uint8_t*> bs;
+  for (int i = 0; i < 16; i++) { uint8_t* b = (uint8_t*)mi_heap_malloc(h, n); if (b) { memset(b, 0x71, n); bs.push_back(b); } }
+  if (bs.size() < 16) vf_trip("harness", "", "allocation failed");
+  uint8_t* p = bs[5];
+  vf_cur_what = "free by another thread";
+  std::thread t([p]() { mi_free(p); }); t.join();                     // first free (legitimate): parked on the delayed-free list of the heap
+  if (forged) {
+    uint64_t v = vf_rng_next(&S.rng) | 1;
+    memcpy(p, &v, sizeof(v));                                           // the program error: the link word of the freed block is overwritten
+    vf_cur_what = "collect reaching an overwritten link of the delayed-free list";
+    begin_attack(EFAULT);
+    g_att_forged++;
+    mi_heap_collect(h, false);
+    for (int i = 0; i < 300 && g_expect_seen == 0; i++) { void* q = mi_heap_malloc(h, n); (void)q; }
+    end_attack(S, "overwritten link of a block that another thread freed (delayed-free list)", "forged-link-unreported", n, p);
+  } else {
+    vf_cur_what = "second free after a first free by another thread";
+    begin_attack(EAGAIN);
+    g_att_double++;
+    mi_free(p);                                                         // second free, by the owning thread; the page holds 15 live blocks
+    end_attack(S, "second (thread-local) free of a block whose first free came from another thread and is still parked on the delayed-free list", "double-free-undetected", n, p);
+  }
+  for (size_t i = 0; i < bs.size(); i++) if (i != 5 && (bs[i][0] != 0x71 || bs[i][n - 1] != 0x71)) vf_trip("contents", "C17,C01", "live block %p changed", (void*)bs[i]);
+  mi_heap_destroy(h);
+  vf_err_reset();
+}
+// K6 (debug builds): the sized free asserts on the usable size of the block before any check of mi_free runs
+static void run_sized_double_case(State& S) {
+  const size_t n = 24 + (size_t)vf_rng_below(&S.rng, 900);
+  std::vector<vf::Blk*> bs;
+  for (int i = 0; i < 6; i++) { vf::Blk* b = do_alloc(S, EP_malloc, n); if (b) bs.push_back(b); }
+  if (bs.size() < 6) vf_trip("harness", "", "allocation failed");
+  vf::Blk* victim = bs[2]; uint8_t* p = victim->p;
+  S.sm.verify(victim, "before free"); S.sm.remove(victim);
+  vf_cur_what = "free_size";
+  mi_free_size(p, n);                                                   // first free (legitimate)
+  vf_cur_what = "second free through mi_free_size";
+  begin_attack(EAGAIN);
+  g_att_double++;
+  mi_free_size(p, n);
+  end_attack(S, "second free through mi_free_size", "double-free-undetected", n, p);
+}
+
 static void harden_print(FILE* f) {
-  fprintf(f, ",\"hardening\":{\"double_free\":%llu,\"overflow\":%llu,\"forged_link\":%llu,\"skipped\":%llu,\"classes\":%zu,\"allocs_until_forged_reported\":%llu,\"double_free_after_migration\":%llu,\"overflow_freed_remotely\":%llu,\"forged_link_met_by_double_free_walk\":%llu,\"double_free_deep\":%llu,\"forged_link_met_by_forced_collect\":%llu}",
+  fprintf(f, ",\"hardening\":{\"double_free\":%llu,\"overflow\":%llu,\"forged_link\":%llu,\"skipped\":%llu,\"classes\":%zu,\"allocs_until_forged_reported\":%llu,\"double_free_after_migration\":%llu,\"overflow_freed_remotely\":%llu,\"forged_link_met_by_double_free_walk\":%llu,\"double_free_deep\":%llu,\"forged_link_met_by_forced_collect\":%llu,\"double_free_over_aligned_after_retire\":%llu}",
           (unsigned long long)g_att_double, (unsigned long long)g_att_overflow, (unsigned long long)g_att_forged, (unsigned long long)g_att_skipped, g_att_classes.size(),
-          (unsigned long long)g_forged_allocs_until_report, (unsigned long long)g_att_migrated, (unsigned long long)g_att_remote_overflow, (unsigned long long)g_att_forged_walk, (unsigned long long)g_att_double_deep, (unsigned long long)g_att_forged_collect);
+          (unsigned long long)g_forged_allocs_until_report, (unsigned long long)g_att_migrated, (unsigned long long)g_att_remote_overflow, (unsigned long long)g_att_forged_walk, (unsigned long long)g_att_double_deep, (unsigned long long)g_att_forged_collect, (unsigned long long)g_att_double_aligned);
   (void)g_att_classes_n;
 }
 
@@ -318,12 +428,17 @@ void run_hardening(State& S) {
   S.cfg.size_cap = 64 * 1024;
   std::string keep = S.cfg.profile;
   history_begin(S);
+  if (S.cfg.scenario == "delayed-forged" || S.cfg.scenario == "delayed-double" || S.cfg.scenario == "sized-double") {
+    if (S.cfg.scenario == "sized-double") run_sized_double_case(S); else run_delayed_list_case(S, S.cfg.scenario == "delayed-forged");
+    history_end(S);
+    return;
+  }
   uint64_t next_attack = 20 + vf_rng_below(&S.rng, S.cfg.debug ? (S.cfg.ops > 40 ? S.cfg.ops - 40 : 1) : 120);
   for (S.op_index = 0; S.op_index < S.cfg.ops; S.op_index++) {
     history_step(S);
     if (S.op_index >= next_attack) {
       unsigned k = (unsigned)vf_rng_below(&S.rng, 7);
-      if (k < 2) { if (vf_rng_chance(&S.rng, 1, 3)) attack_double_free_deep(S); else attack_double_free(S); }
+      if (k < 2) { unsigned j = (unsigned)vf_rng_below(&S.rng, 6); if (j < 2) attack_double_free_deep(S); else if (j < 4) attack_double_free_aligned(S); else attack_double_free(S); }
       else if (k < 4) attack_overflow(S);
       else if (k < 6) attack_forged_link(S);
       else if (vf_rng_chance(&S.rng, 1, 2)) attack_forged_walk(S); else attack_forged_collect(S);
